@@ -865,7 +865,7 @@ func TestReplay(t *testing.T) {
 	if ok, err := vh.ReplayCase("relay", &rc); err != nil {
 		t.Fatalf("INFRA: %v", err)
 	} else if ok {
-		recR.Check(t, &rc, func() vh.Outcome { return runRelay(t, &rc) })
+		recR.Check(t, &rc, func() vh.Outcome { return vh.Confirm(func(int) vh.Outcome { return runRelay(t, &rc) }) })
 		return
 	}
 	var bc BlobCase
@@ -875,7 +875,7 @@ func TestReplay(t *testing.T) {
 	}
 	var fc FaultCase
 	if ok, _ := vh.ReplayCase("store-faults", &fc); ok {
-		recF.Check(t, &fc, func() vh.Outcome { return runFault(t, &fc) })
+		recF.Check(t, &fc, func() vh.Outcome { return vh.Confirm(func(int) vh.Outcome { return runFault(t, &fc) }) })
 		return
 	}
 	t.Skip("no replay for this package")
